@@ -71,12 +71,13 @@ def compare(drv, sess, name="x", want_lines=False):
                               "extra_in": "real" if len(r) > len(m) else "model"})
     re_, me = real_events(sess), model_events(other)
     cutoff = {"c": None, "s": None}
+    slack = {"c": 0, "s": 0}
     for e in sess.netlog:
         if e[0] == "app" and e[2] == "c" and e[3] == "disconnect" and cutoff["c"] is None: cutoff["c"] = ticks(e[1])
-        if e[0] == "app" and e[2] == "s" and e[3] == "done" and cutoff["s"] is None: cutoff["s"] = ticks(e[1])
+        if e[0] == "app" and e[2] == "s" and e[3] in ("done", "raised") and cutoff["s"] is None: cutoff["s"] = ticks(e[1]); slack["s"] = 1 if e[3] == "raised" else 0   # a handler may raise at the very instant of a delivery
     for key in set(re_["deliver"]) | set(me["deliver"]):
         # the harness' reader tasks stop when the script ends: later deliveries stay in the queue unobserved
-        md = [d for (tk, d) in me["deliver"].get(key, []) if cutoff[key[0]] is None or tk < cutoff[key[0]]]
+        md = [d for (tk, d) in me["deliver"].get(key, []) if cutoff[key[0]] is None or tk < cutoff[key[0]] + slack[key[0]]]
         if re_["deliver"].get(key, []) != md:
             diffs.append({"kind": "deliver", "endpoint": key[0], "substream": key[1],
                           "real": re_["deliver"].get(key, [])[:4], "model": md[:4],
